@@ -166,6 +166,54 @@ def for_each(xs, body, loop_id):
         body(x)
 
 
+# ---- T1 (search form)
+class _NotFound:
+    def __repr__(self):
+        return "NOTFOUND"
+
+
+NOTFOUND = _NotFound()
+
+
+class SymEnum:
+    """enumerate(S) for a symbolic sequence S"""
+
+    def __init__(self, seq, start=0):
+        self.seq, self.start = seq, start
+
+
+def search(xs, cond, value):
+    """first element satisfying cond -> (value(element),) ; none -> NOTFOUND"""
+    COUNTS["for_app"] += 1
+    if isinstance(xs, (SymSeq, SymEnum)):
+        COUNTS["symbolic"] += 1
+        import z3
+        c = ctx()
+        seq = xs.seq if isinstance(xs, SymEnum) else xs
+        k = SymInt(z3.Int("first!" + seq.root), "first(" + seq.root + ")")
+        elem = seq.elem
+        gen = (k + xs.start if xs.start else k, elem) if isinstance(xs, SymEnum) else elem
+        hit = cond(gen)
+        if isinstance(hit, SymBool):
+            found = c.branch(hit.t)
+        else:
+            found = bool(hit) and bool(seq)      # every element satisfies cond: the first one, if any
+            if found:
+                pyvc.assume(k.t == 0)
+        if found:
+            # ghost: k is the LEAST index whose element satisfies cond (loop invariant of a search loop:
+            # "no earlier element satisfied cond")
+            pyvc.assume(z3.And(k.t >= 0, k.t < z3.Int("len!" + seq.root)))
+            c.note("search-found", {"seq": seq.root, "index": "first!" + seq.root, "meaning": "least index whose element satisfies the condition"})
+            return (value(gen),)
+        c.note("search-none", {"seq": seq.root, "meaning": "no element satisfies the condition"})
+        return NOTFOUND
+    for x in xs:
+        if cond(x):
+            return (value(x),)
+    return NOTFOUND
+
+
 # ---- builtins on proxies
 def b_len(x):
     COUNTS["builtin"] += 1
@@ -245,8 +293,10 @@ def b_any(xs):
 
 def b_enumerate(xs, start=0):
     COUNTS["builtin"] += 1
+    if isinstance(xs, SymSeq):
+        return SymEnum(xs, start)
     if _is_sym(xs):
-        raise Unsupported("enumerate over a symbolic sequence")
+        raise Unsupported("enumerate over a symbolic value")
     return builtins.enumerate(xs, start)
 
 
